@@ -49,8 +49,9 @@ def gen_scenario(r):
     has_src = r.random() < 0.3
     root_marker = "src" if has_src else ""
     # target module location relative to project root
-    target_dir = r.choice(["", "db", "db/sub", "app", "app/inner", "common"])
-    name = r.choice(["models", "utils", "helpers", "m1"])
+    target_dir = r.choice(["", "db", "db/sub", "app", "app/inner", "common", "stdx", "rusty"])
+    # plain names, and names that merely *begin* like a reserved import root (std, rust, python, crate, super, web, testing)
+    name = r.choice(["models", "utils", "helpers", "m1", "stdutil", "std_extra", "rustlib", "python_tools", "crate_utils", "supermod", "webby", "testing_aids"])
     ext = "incn" if r.random() < 0.8 else "incan"
     layout = r.choice(["file", "file", "file", "mod_dir"])
     if layout == "mod_dir":
@@ -199,6 +200,26 @@ def visibility_scenarios():
                 entry = "%s\n\n\ndef main() -> None:\n    %s\n" % (imp, use % ref)
                 out.append({"kind": "visibility", "class": "vis|%s|%s|%s" % (kind, "pub" if pub else "private", style), "files": {"m.incn": mod, "main.incn": entry},
                             "entry": "main.incn", "expect": "accept" if pub else "reject"})
+            # the same item reached through every other spelling of the module path (and through a module whose name merely begins like
+            # a reserved root): visibility must not depend on how the path is written
+            name = "Item" if kind in ("model", "enum", "class") else ("ITEM" if kind == "const" else "item")
+            dtext = (decl % ("pub " if pub else "")).replace("item", name)
+            for style, mname, mpath, epath, imp in (
+                    ("from_crate", "m", "src/m.incn", "src/main.incn", "from crate::m import %s"),
+                    ("from_crate_dot", "m", "src/m.incn", "src/main.incn", "from crate.m import %s"),
+                    ("rust_item_crate", "m", "src/m.incn", "src/main.incn", "import crate::m::%s"),
+                    ("from_dotdot", "m", "m.incn", "app/main.incn", "from ..m import %s"),
+                    ("from_super", "m", "m.incn", "app/main.incn", "from super::m import %s"),
+                    ("rust_item_super", "m", "m.incn", "app/main.incn", "import super::m::%s"),
+                    ("from_nested", "m", "db/m.incn", "main.incn", "from db.m import %s"),
+                    ("from_nested_cc", "m", "db/m.incn", "main.incn", "from db::m import %s"),
+                    ("from_std_prefixed_name", "stdutil", "stdutil.incn", "main.incn", "from stdutil import %s"),
+                    ("from_rust_prefixed_name", "rustlib", "rustlib.incn", "main.incn", "from rustlib import %s"),
+                    ("from_mod_dir", "m", "m/mod.incn", "main.incn", "from m import %s")):
+                mod = "const MARK = \"%s\"\n\n\n" % mpath + dtext
+                entry = "%s\n\n\ndef main() -> None:\n    %s\n" % (imp % name, use % name)
+                out.append({"kind": "visibility", "class": "vis|%s|%s|%s" % (kind, "pub" if pub else "private", style), "files": {mpath: mod, epath: entry},
+                            "entry": epath, "expect": "accept" if pub else "reject"})
     return out
 
 
